@@ -283,6 +283,16 @@ class SymbolicExpression(Generic[T], ABC):
             return self._node_.parent.data
         return None
 
+    @property
+    def _structural_parent_(self) -> Optional[SymbolicExpression]:
+        """
+        The parent of this expression in the expression tree. Unlike `_parent_` it does not depend on which query
+        evaluated this expression last, this is what the rule tree is edited by.
+        """
+        if self._node_.parent is not None:
+            return self._node_.parent.data
+        return None
+
     @_parent_.setter
     def _parent_(self, value: Optional[SymbolicExpression]):
         self._node_.parent = value._node_ if value is not None else None
@@ -419,7 +429,7 @@ class SymbolicExpression(Generic[T], ABC):
 
     def __enter__(self) -> Self:
         node = self
-        if (node is self._root_) or (node._parent_ is self._root_):
+        if (node is self._root_) or (node._structural_parent_ is self._root_):
             node = node._conditions_root_
         SymbolicExpression._symbolic_expression_stack_.append(node)
         return self
